@@ -129,4 +129,34 @@ theorem normItems_id (ts : Nat) (items : List Item) (h : ∀ it ∈ items, it.ts
   cases it
   simp_all
 
+/-! ## no call is ignored by the writer -/
+
+theorem write_latest (w : Writer) (ts : Nat) (items : List Item) :
+    (w.write ts items).latestOpSec = max w.latestOpSec (ts / 1000) := by
+  unfold Writer.write
+  dsimp only
+  split_ifs with h1 h2
+  · omega
+  · simp only [rollIf_latest, Writer.append, Writer.addIndex]
+  · simp only [rollIf_latest, Writer.append]
+
+/-- every call of the history passes the writer's `timeSec < latestOpSec → ignore` test -/
+def Accepted : Writer → List (Nat × List Item) → Prop
+  | _, [] => True
+  | w, p :: r => w.latestOpSec ≤ p.1 / 1000 ∧ Accepted (w.write p.1 p.2) r
+
+theorem accepted_of_sorted (w : Writer) (hist : List (Nat × List Item))
+    (h0 : ∀ p ∈ hist, w.latestOpSec ≤ p.1 / 1000) (hs : (hist.map (·.1)).Pairwise (· < ·)) : Accepted w hist := by
+  induction hist generalizing w with
+  | nil => trivial
+  | cons p r ih =>
+    simp only [List.map_cons, List.pairwise_cons] at hs
+    refine ⟨h0 p (List.mem_cons_self ..), ih _ ?_ hs.2⟩
+    intro q hq
+    rw [write_latest]
+    have h1 := h0 q (List.mem_cons_of_mem _ hq)
+    have h2 := hs.1 q.1 (List.mem_map.mpr ⟨q, hq, rfl⟩)
+    have : p.1 / 1000 ≤ q.1 / 1000 := Nat.div_le_div_right (Nat.le_of_lt h2)
+    exact max_le h1 this
+
 end Sentinel.AGG
